@@ -297,87 +297,123 @@ def check_populate(ctx, r, rid="R0"):
     return True
 
 
+def _chain(loc, ext, default="en"):
+    """the statement (C03): the locale itself, then its `inherits` chain until it ends or loops, then the default locale"""
+    out = [loc]
+    cur = loc
+    while cur in ext and ext[cur] not in out:
+        cur = ext[cur]
+        out.append(cur)
+    if default not in out:
+        out.append(default)
+    else:
+        out = out[:out.index(default) + 1]
+    return out
+
+
 def check_inner(ctx, r, rid="R0"):
-    """resolve_foreign_key_inner: lookup, null fallback, nested resolution, substitution, storage"""
+    """resolve_foreign_key_inner: lookup, fallback of a null target along `inherits`, nested resolution, substitution,
+    storage"""
     fn = ctx.ast.fn(PV, "resolve_foreign_key_inner", impl_self="ParsedValue")
     if fn is None:
         r.missing("ParsedValue::resolve_foreign_key_inner")
         return False
-    nparams = len(fn.node["sig"]["inputs"])
     pnames = fn.params()
-    targets = [("literal", Lit("a")), ("variable", Bloc(Lit("a "), Var("var_x"))), ("component", Comp("comp_b", Var("var_x"))), ("subkeys", SUBKEYS), ("missing", None),
-               ("null", DEFAULT), ("reference", Bloc(FkNotSet("inner"), Var("var_x"))),
+    T_FR, T_EN, T_IT = Bloc(Lit("fr "), Var("var_x")), Bloc(Lit("default "), Var("var_x")), Bloc(Lit("it "), Var("var_x"))
+    targets = [("literal", Lit("a")), ("variable", Bloc(Lit("a "), Var("var_x"))), ("component", Comp("comp_b", Var("var_x"))), ("subkeys", SUBKEYS),
+               ("reference", Bloc(FkNotSet("inner"), Var("var_x"))),
                ("range", Rng("var_count", "I32", [(Exact(0), Lit("zero")), (FALLBACK, Bloc(Var("var_count"), Var("var_x")))]))]
     argsets = [("no-args", L()), ("x", L(T(S("var_x"), Lit("X")))), ("x=reference", L(T(S("var_x"), FkNotSet("arg"))))]
+    EXT = {"fr-CA": "fr", "de": "it", "it": "de", "pt": "pt"}          # a chain, a cycle, a self reference
+    NULL, ABSENT = DEFAULT, None
+    # (label, locale of the reference, {locale: value | NULL | ABSENT})
+    cases = []
+    for tl, tv in targets:
+        for loc in ("fr", "en", "fr-CA"):
+            cases.append(("%s-target" % tl, loc, {loc: tv, "en": T_EN}))
+    cases += [
+        ("missing", "fr", {"en": T_EN}), ("missing-in-default", "en", {}), ("null-in-default", "en", {"en": NULL}),
+        ("null", "fr", {"fr": NULL, "en": T_EN}), ("null-everywhere", "fr", {"fr": NULL, "en": NULL}), ("null-then-absent-in-default", "fr", {"fr": NULL}),
+        ("null-inherits-defined", "fr-CA", {"fr-CA": NULL, "fr": T_FR, "en": T_EN}),
+        ("null-inherits-null", "fr-CA", {"fr-CA": NULL, "fr": NULL, "en": T_EN}),
+        ("null-inherits-absent", "fr-CA", {"fr-CA": NULL, "en": T_EN}),
+        ("null-cycle-all-null", "de", {"de": NULL, "it": NULL, "en": T_EN}),
+        ("null-cycle-other-defines", "de", {"de": NULL, "it": T_IT, "en": T_EN}),
+        ("null-cycle-other-absent", "it", {"it": NULL, "en": T_EN}),
+        ("null-self-reference", "pt", {"pt": NULL, "en": T_EN}),
+    ]
     n = 0
     bad = 0
-    for tl, tv in targets:
-        for al, av in argsets:
-            for loc in ("fr", "en"):
-                # the model: locale `fr` holds the target; the default locale `en` holds ENV (used for null targets)
-                log = []
-                env_default = Bloc(Lit("default "), Var("var_x"))
+    for cl, loc, table in cases:
+        for al, av in (argsets if cl.endswith("-target") or cl in ("null", "null-inherits-defined") else argsets[:2]):
+            log = []
 
-                def get_value_at(rv, a, tv=tv, loc=loc):
-                    lc = a[0][1] if a[0][0] == "str" else absint.fields_of(a[0]).get("name", ("str", "?"))[1]
-                    log.append(("lookup", lc))
-                    if tv is None:
-                        return C("None")
-                    if tv == DEFAULT and lc == "en" and loc != "en":
-                        return C("Some", env_default)
-                    return C("Some", tv)
+            def get_value_at(rv, a, table=table):
+                lc = a[0][1] if a[0][0] == "str" else absint.fields_of(a[0]).get("name", ("str", "?"))[1]
+                log.append(("lookup", lc))
+                v = table.get(lc)
+                return C("None") if v is None else C("Some", v)
 
-                def resolve(rv, a):
-                    lc = a[1]
-                    log.append(("resolve", rv, lc[1] if lc[0] == "str" else lc))
-                    return C("Ok", UNIT)
-                ev = evaluator()
-                ev.builtins.update({"get_value_at": get_value_at, "resolve_foreign_key": resolve})
-                cell = C("NotSet", A("fkpath"), av)
-                params = {"foreign_key": cell, "values": A("values"), "top_locale": S(loc), "default_locale": S("en"), "key_path": A("key_path"), "extensions": L()}
-                try:
-                    argv = [params[p] for p in pnames]
-                except KeyError as e:
-                    raise Unknown("resolve_foreign_key_inner has a parameter the model does not know: %s" % e)
-                got = ev.run_fn(fn, argv)
-                if isinstance(got, str):
-                    raise Unknown("resolve_foreign_key_inner on %s/%s/%s: %s" % (tl, al, loc, got))
-                stored = (getattr(ev, "last_env", None) or {}).get("foreign_key", cell)
+            def resolve(rv, a):
+                lc = a[1]
+                log.append(("resolve", rv, lc[1] if lc[0] == "str" else lc))
+                return C("Ok", UNIT)
+            ev = evaluator()
+            ev.builtins.update({"get_value_at": get_value_at, "resolve_foreign_key": resolve})
+            cell = C("NotSet", A("fkpath"), av)
+            params = {"foreign_key": cell, "values": A("values"), "top_locale": S(loc), "default_locale": S("en"), "key_path": A("key_path"),
+                      "extensions": L(*[T(S(k), S(v)) for k, v in EXT.items()])}
+            try:
+                argv = [params[p] for p in pnames]
+            except KeyError as e:
+                raise Unknown("resolve_foreign_key_inner has a parameter the model does not know: %s" % e)
+            got = ev.run_fn(fn, argv)
+            label = "%s/%s/%s" % (cl, al, loc)
+            if isinstance(got, str) and "does not end within" in got:
+                bad += 1
                 n += 1
-                label = "%s/%s/%s" % (tl, al, loc)
-                # ---- expected, from the statement
-                eff_loc, eff_t = loc, tv
-                want_err = None
-                if tv is None:
-                    want_err = "MissingForeignKey"
-                elif tv == DEFAULT:
-                    if loc == "en":
-                        want_err = "ExplicitDefaultInDefault"
-                    else:
-                        eff_loc, eff_t = "en", env_default
-                if want_err is None:
-                    try:
-                        want_val = subst(eff_t, av)
-                    except RefErr as e:
-                        want_err = e.kind
-                if want_err is not None:
-                    if err_kind(got) != want_err or stored != cell:
-                        bad += 1
-                        r.viol("%s:resolve_foreign_key_inner#%s" % (rid, label), "a reference to a %s target (%s, locale %s) gives %s and leaves %s in the cell; the statement says it is rejected with %s" % (tl, al, loc, absint.fmt(got)[:200], absint.fmt(stored)[:200], want_err), file=fn.file, line=fn.line)
-                    continue
-                want_cell = C("Set", want_val)
-                res_log = [x for x in log if x[0] == "resolve"]
-                # the target and every argument are resolved first, in the locale the target was found in
-                want_res = [("resolve", eff_t, eff_loc)] + [("resolve", x[1][1], eff_loc) for x in av[1]]
-                if got != C("Ok", UNIT) or _norm(stored) != _norm(want_cell):
+                r.viol("%s:resolve_foreign_key_inner#%s#terminates" % (rid, label), "the resolution of a reference (%s, locale %s, inherits %s) does not terminate: %s" % (cl, loc, EXT, got), file=fn.file, line=fn.line)
+                continue
+            if isinstance(got, str):
+                raise Unknown("resolve_foreign_key_inner on %s: %s" % (label, got))
+            stored = (getattr(ev, "last_env", None) or {}).get("foreign_key", cell)
+            n += 1
+            # ---- expected, from the statements of C03 / C06
+            want_err = eff_loc = eff_t = None
+            own_absent = table.get(loc) is None
+            for lc in _chain(loc, EXT):
+                v = table.get(lc)
+                if v is not None and v != NULL:
+                    eff_loc, eff_t = lc, v
+                    break
+            if eff_t is None:
+                want_err = "ExplicitDefaultInDefault" if table.get("en") == NULL else "MissingForeignKey"
+            if want_err is None:
+                try:
+                    want_val = subst(eff_t, av)
+                except RefErr as e:
+                    want_err = e.kind
+            if own_absent and err_kind(got) == "MissingForeignKey" and stored == cell:
+                continue        # a reference to a key its own locale does not have at all is rejected (accepted reading of `cannot be resolved`)
+            if want_err is not None:
+                if err_kind(got) != want_err or stored != cell:
                     bad += 1
-                    r.viol("%s:resolve_foreign_key_inner#%s" % (rid, label), "a reference to a %s target (%s, locale %s) gives %s and stores %s; pure substitution stores %s" % (tl, al, loc, absint.fmt(got)[:200], absint.fmt(stored)[:300], absint.fmt(want_cell)[:300]), file=fn.file, line=fn.line)
-                elif sorted(map(repr, res_log)) != sorted(map(repr, want_res)):
-                    bad += 1
-                    r.viol("%s:resolve_foreign_key_inner#%s#nested" % (rid, label), "before substituting, the nested references of the target and of the arguments must be resolved in the locale the target came from (%s): resolved %s" % (eff_loc, [(absint.fmt(x[1])[:60], x[2]) for x in res_log]), file=fn.file, line=fn.line)
+                    r.viol("%s:resolve_foreign_key_inner#%s" % (rid, label), "a reference (%s, %s, locale %s) gives %s and leaves %s in the cell; the statement says it is rejected with %s" % (cl, al, loc, absint.fmt(got)[:200], absint.fmt(stored)[:200], want_err), file=fn.file, line=fn.line)
+                continue
+            want_cell = C("Set", want_val)
+            res_log = [x for x in log if x[0] == "resolve"]
+            # the target and every argument are resolved first, in the locale the target was found in
+            want_res = [("resolve", eff_t, eff_loc)] + [("resolve", x[1][1], eff_loc) for x in av[1]]
+            if got != C("Ok", UNIT) or _norm(stored) != _norm(want_cell):
+                bad += 1
+                r.viol("%s:resolve_foreign_key_inner#%s" % (rid, label), "a reference (%s, %s, locale %s; values per locale %s; inherits %s) gives %s and stores %s; the first locale of the chain that defines the target is %s: pure substitution stores %s"
+                       % (cl, al, loc, {k: ("null" if v == NULL else absint.fmt(v)[:30]) for k, v in table.items()}, EXT, absint.fmt(got)[:200], absint.fmt(stored)[:300], eff_loc, absint.fmt(want_cell)[:300]), file=fn.file, line=fn.line)
+            elif sorted(map(repr, res_log)) != sorted(map(repr, want_res)):
+                bad += 1
+                r.viol("%s:resolve_foreign_key_inner#%s#nested" % (rid, label), "before substituting, the nested references of the target and of the arguments must be resolved in the locale the target came from (%s): resolved %s" % (eff_loc, [(absint.fmt(x[1])[:60], x[2]) for x in res_log]), file=fn.file, line=fn.line)
     if not bad:
-        r.inst("ParsedValue::resolve_foreign_key_inner", "%d (target kind, arguments, locale) cases: missing / subkey / null-in-default targets rejected with the cell untouched, a null target elsewhere takes the fallback locale's value, "
-               "nested references of target and arguments resolved first in that locale, the cell receives the pure substitution" % n)
+        r.inst("ParsedValue::resolve_foreign_key_inner", "%d (target, arguments, locale, inherits) cases: missing / subkey / null-in-default targets rejected with the cell untouched; a null target takes the value of the first locale of its "
+               "`inherits` chain that defines it (chains, cycles, self reference, absent links), else the default's; nested references of target and arguments resolved first in that locale; the cell receives the pure substitution; every walk terminates" % n)
     return True
 
 
